@@ -69,6 +69,8 @@ impl Ctx {
     }
 }
 
+pub static TRACE_PANICS: std::sync::atomic::AtomicBool = std::sync::atomic::AtomicBool::new(false);
+
 thread_local! {
     static QUIET: RefCell<bool> = RefCell::new(false);
     static CASE_CPU_START: RefCell<u64> = RefCell::new(0);
@@ -103,6 +105,10 @@ pub fn install_panic_hook() {
             "<non-string panic>".to_string()
         };
         let desc = format!("{} at {}", msg, loc);
+        if TRACE_PANICS.load(Ordering::Relaxed) {
+            // crash diagnosis: if the process aborts (panic while unwinding) the last of these lines names the site
+            eprintln!("PANIC {}", desc);
+        }
         LAST_PANIC.with(|p| {
             let mut p = p.borrow_mut();
             if let Some(first) = p.as_ref() {
